@@ -45,6 +45,7 @@ func genAffinityPlan(seed uint64, tier string) *Plan {
 	clientIP := "10.1.0.1"
 	sameSentBy := g.chance(50)
 	prevBranch, prevConn, prevMethod := "", "", ""
+	namedClient := map[int]bool{}
 	for ci := 0; ci < nconn; ci++ {
 		ntx := g.rng(1, 4)
 		if g.chance(15) {
@@ -67,6 +68,17 @@ func genAffinityPlan(seed uint64, tier string) *Plan {
 				op.S["sentby"] = "10.1.0.1:5060"
 			} else if g.chance(30) {
 				op.S["sentby"] = fmt.Sprintf("client%d.hosts.test:5060", ci)
+				if !namedClient[ci] && g.chance(50) {
+					// the name is in the service's host table
+					namedClient[ci] = true
+					c.Hosts = append(c.Hosts, HostCfg{Name: fmt.Sprintf("client%d.hosts.test", ci), IP: clientIP})
+				}
+			}
+			// sequence numbers up to 2^31-1; now and then the client is itself a relay (its request carries the Via of
+			// the party behind it, on a line of its own or on the same line)
+			op.I["cseq"] = g.pick2(1, 1, 1, 7, 65535, 65536, 81234, 2147483647)
+			if g.chance(25) {
+				op.I["lowerVia"] = 1 + g.intn(2)
 			}
 			if prevBranch != "" && prevConn != op.Conn && g.chance(25) {
 				// two open transactions whose branches differ in letter case only (tokens are compared as written)
@@ -213,11 +225,24 @@ func execAffinity(t *testing.T, p *Plan) *Result {
 					params = ";rport" + params
 				}
 				b := &sipwire.Builder{Start: op.S["method"] + " sip:u@svc.example.com SIP/2.0"}
-				b.Add("Via", "SIP/2.0/TCP "+sentby+params)
+				lower := "SIP/2.0/UDP 10.77.0.9:5062;branch=z9hG4bKlow" + strings.ReplaceAll(op.ID, "-", "")
+				switch op.I["lowerVia"] {
+				case 1:
+					b.Add("Via", "SIP/2.0/TCP "+sentby+params)
+					b.Add("Via", lower)
+				case 2:
+					b.Add("Via", "SIP/2.0/TCP "+sentby+params+", "+lower)
+				default:
+					b.Add("Via", "SIP/2.0/TCP "+sentby+params)
+				}
+				cseq := op.I["cseq"]
+				if cseq == 0 {
+					cseq = 1
+				}
 				b.Add("From", "<sip:c@caller.test>;tag=f"+strings.ReplaceAll(op.ID, "-", ""))
 				b.Add("To", "<sip:u@svc.example.com>")
 				b.Add("Call-ID", "cid-"+op.ID)
-				b.Add("CSeq", "1 "+op.S["method"])
+				b.Add("CSeq", strconv.Itoa(cseq)+" "+op.S["method"])
 				b.Add("X-Sim-Id", op.ID)
 				data := b.Bytes()
 				c.Write(data)
